@@ -242,6 +242,16 @@ impl Ctx {
 		S::Value: Serialize + std::fmt::Debug + Clone,
 		F: Fn(&S::Value, &Path) -> CaseResult,
 	{
+		self.run_prop_shrink(sub, cases, 1500, strat, f)
+	}
+
+	/// Like `run_prop` with an explicit bound on shrink iterations (expensive cases).
+	pub fn run_prop_shrink<S, F>(&self, sub: &str, cases: u32, max_shrink: u32, strat: S, f: F) -> bool
+	where
+		S: Strategy,
+		S::Value: Serialize + std::fmt::Debug + Clone,
+		F: Fn(&S::Value, &Path) -> CaseResult,
+	{
 		let seed = self.shard_seed(fingerprint(&sub.to_string()) & 0xffff);
 		let mut seed_bytes = [0u8; 32];
 		crate::spec::fill_random(&mut seed_bytes, seed);
@@ -250,7 +260,7 @@ impl Ctx {
 			failure_persistence: None,
 			rng_algorithm: RngAlgorithm::ChaCha,
 			rng_seed: RngSeed::Fixed(seed),
-			max_shrink_iters: 1500,
+			max_shrink_iters: max_shrink,
 			max_shrink_time: 0,
 			max_global_rejects: 1_000_000,
 			..Config::default()
